@@ -1,6 +1,7 @@
 import NitroVerif.Driver.Engine
 import NitroVerif.Driver.Codec
 import NitroVerif.Driver.Table
+import NitroVerif.Driver.Barrier
 namespace NitroVerif.Driver
 
 def engineByName (name : String) : Option Engine :=
@@ -8,6 +9,7 @@ def engineByName (name : String) : Option Engine :=
   | "codec" => some codecEngine
   | "table" => some tableEngine
   | "nodelist" => some nodeListEngine
+  | "barrier" => some barrierEngine
   | _ => none
 
 end NitroVerif.Driver
